@@ -56,8 +56,13 @@ class Type(object):
         if maximum is None:
             maximum = 'MAX'
 
-        self.minimum = minimum
-        self.maximum = maximum
+        # MIN and MAX denote the bounds of the parent type, if it has
+        # any.
+        if minimum != 'MIN':
+            self.minimum = minimum
+
+        if maximum != 'MAX':
+            self.maximum = maximum
 
     def set_size_range(self, minimum, maximum, has_extension_marker):
         self.set_range(minimum, maximum, has_extension_marker)
